@@ -21,6 +21,7 @@ RULE = (
     'getPointsOnSphere/compute_fast_NFW/gen_sats_nfw (0 or fewer satellites than threads), _searchsorted_parallel. A case = one kernel call under one observer. '
     'non-trivial = distinct (observer, kernel, boundary class, thread count) executed to completion'
 )
+RULE += ' Added after seeded round 10: the same positions array deposited a second time after an in-place shift by +-0.999 box (call history of tsc_parallel).'
 ASSUMPTIONS = [
     'NUMBA_BOUNDSCHECK reports a failed check only from the master thread: compiled sanitized runs use one thread; thread-count dependent index arithmetic is checked interpreted (numpy index checks)',
     'negative indices that wrap legally (periodic -1 of TSC/CIC) are not errors in numba nor numpy',
@@ -122,6 +123,12 @@ def cases(quick, seed):
     for N, Q in ((0, 0), (1, 0), (5, 1), (1, 40), (100, 300)):
         for nt in (1, 16):
             add('hod', 'searchsorted', 'S1 S2 S3' if nt == 1 else 'S2 S3', N=N, Q=Q, Nthread=nt)
+    # ---- call history (appended last so that the seeds of the cases above do not move): the same positions array painted again
+    # onto the same grid after the caller shifted it in place by just under one box (still inside what wrap=True accepts)
+    for shape, nthread, npart in (((8, 8, 8), 1, None), ((16, 4, 5), 1, 4), ((16, 4, 5), 4, None), ((16, 4, 5), 2, 4), ((32, 4, 4), 16, None), ((12, 12, 1), 3, None), ((5, 4, 3), 1, None)):
+        for dtype in ('f4', 'f8'):
+            for shift in (-0.999, 0.999):
+                add('mas', 'tsc', 'S1 S2 S3' if nthread == 1 else 'S2 S3', shape=shape, box=[1.0, 123.0][dtype == 'f4'], N=60, pos='random', dtype=dtype, nthread=nthread, npartition=npart, offset_cells=0.0, coord=0, weights=(shift > 0), repaint_shift=shift)
     return C
 
 
